@@ -113,9 +113,14 @@ def c06_block(name, N, parts, events):
             pid, obj, val = e.words[0], e.words[1], e.words[2]
             if obj != name or e.actor is None:
                 continue
-            st = re.search(r"state=(-?\d+)", e.snap).group(1)
-            n = re.search(r" n=(-?\d+)", " " + e.snap).group(1)
-            stk = [tg(x) or "?" for x in _STK.search(e.snap).group(1).split(",") if x]
+            m1, m2, m3 = re.search(r"state=(-?\d+)", e.snap), re.search(r" n=(-?\d+)", " " + e.snap), _STK.search(e.snap)
+            if not (m1 and m2 and m3):
+                # truncated line (the process died while writing it): the driver reports it as unparsable
+                lines.append("garbled %s" % pid)
+                src.append(e)
+                continue
+            st, n = m1.group(1), m2.group(1)
+            stk = [tg(x) or "?" for x in m3.group(1).split(",") if x]
             v = tg(val) if tg(val) is not None else ("-" if val in ("-", "big", "t?") else val)
             lines.append("tick %s %s %s %s B %s %s %d %s" % (idx.get(e.actor, "?"), e.ctx, pid, v, st, n,
                                                             len(stk), " ".join(stk)))
